@@ -138,7 +138,8 @@ pub fn run(tier: Tier, seed: u64) -> i32 {
     let sp = Spec { id: "C06", rule: RULE, tape_len: 280, cases: tier.pick(30_000, 500_000), gen: gen_case, check, max_shrink_iters: 3000, shards: 16 };
     let mut stats = engine::run_spec(&sp, tier, seed);
     engine::run_regressions::<Phys>("C06", check, &mut stats);
-    engine::finish("C06", tier, seed, RULE, stats, t0, serde_json::json!({}), &["removal order observed through the crate's debug log (unrescaled parameters 2^-k)", "reference J by own recursion; exact rational cumulative sums", "64*E*eps neighbourhood of a boundary accepts both neighbours"])
+    let extra = super::fuzzrun::maybe_fuzz("C06", "edge_select", tier, seed, &mut stats, serde_json::json!({}));
+    engine::finish("C06", tier, seed, RULE, stats, t0, extra, &["removal order observed through the crate's debug log (unrescaled parameters 2^-k)", "reference J by own recursion; exact rational cumulative sums", "64*E*eps neighbourhood of a boundary accepts both neighbours"])
 }
 pub fn replay(path: &str) -> i32 {
     engine::replay_file::<Phys>("C06", path, check)
